@@ -392,6 +392,47 @@ Fixpoint dec_ja (fuel : nat) (ts : list ptok) : option (view tok5 * list ptok) :
   match fuel with O => None | S n => dec_ja_body (dec_ja n) ts end.
 Definition dec_prolog_ja (txt : text) : option (text * view tok5) := dec_clause dec_ja (pl_tokens txt).
 
+(* --- the whole output of to_string(format='prolog'): the operator / multifile declarations, an empty line, then clauses.
+   The reader takes the declarations off as a fixed text (as harness/fmt_dec.py does) and reads clause after clause. *)
+Fixpoint pl_strip_prefix (p s : text) : option text :=
+  match p, s with
+  | [], _ => Some s
+  | x :: p', y :: s' => if N.eqb x y then pl_strip_prefix p' s' else None
+  | _ :: _, [] => None
+  end.
+Fixpoint dec_clauses (dec : nat -> list ptok -> option (view tok5 * list ptok)) (fuel : nat) (ts : list ptok) : option (list (text * view tok5)) :=
+  match fuel with
+  | O => None
+  | S n =>
+      match ts with
+      | [] => Some []
+      | PName f :: PLP :: PName k :: PComma :: r =>
+          if text_eqb f s_ccg then
+            match dec (List.length r) r with
+            | Some (v, PRP :: PName [46] :: rest) =>
+                match dec_clauses dec n rest with Some l => Some ((k, v) :: l) | None => None end
+            | _ => None
+            end
+          else None
+      | _ => None
+      end
+  end.
+Definition dec_prolog_doc (dec : nat -> list ptok -> option (view tok5 * list ptok)) (txt : text) : option (list (text * view tok5)) :=
+  match pl_strip_prefix (prolog_header ++ [cNL]) txt with
+  | Some body => let ts := pl_tokens body in dec_clauses dec (S (List.length ts)) ts
+  | None => None
+  end.
+
+(* what a document is expected to carry: for every record of the batch, in order, the sentence number as text and the view *)
+Fixpoint pl_opt_list {A : Type} (l : list (option A)) : option (list A) :=
+  match l with
+  | [] => Some []
+  | None :: _ => None
+  | Some x :: r => match pl_opt_list r with Some y => Some (x :: y) | None => None end
+  end.
+Definition doc_views (vw : tree -> option (view tok5)) (b : list (list tree)) : option (list (text * view tok5)) :=
+  pl_opt_list (map (fun r : nat * nat * tree => option_map (fun v => (show_nat (fst (fst r)), v)) (vw (snd r))) (number_batch b)).
+
 (* ================= what the format is expected to carry ================= *)
 (* the Prolog spelling of a category, as a category value *)
 Fixpoint plc_en (c : cat) : cat :=
